@@ -216,8 +216,10 @@ theorem apiRunSafe_of_inv (S : Sorter) (hS : SorterOK S) (E : Env) (hK : E.K = G
 
     Hypotheses: `SorterOK S` (`sort_unstable_by`/`sort_by` return a sorted permutation), the environment uses
     the generated constants, `UnicodeFacts` (checked against Rust's `std`), `TablesOK` (kernel-decided for the
-    seven generated languages), `StemHyp` (for the six Snowball languages the stem of a non-empty word has
-    between 1 and `len` characters; nothing for `lang_none`). -/
+    seven generated languages), `StemHyp` (for the six Snowball languages: the reduce table is `FoldClosed`
+    (kernel-decided), lower-casing creates no reduce-table key (`LowerKeyFree`, checked by the harness), and the
+    stem of a non-empty word free of reduce-table keys has between 1 and `len` characters; nothing for
+    `lang_none`). -/
 theorem C01_api_safe_src (S : Sorter) (hS : SorterOK S) (E : Env) (hK : E.K = Gen.srcConsts)
     (hU : UnicodeFacts E.U Gen.srcConsts) (hT : TablesOK E.T = true) (hSt : StemHyp E) (ops : List ApiOp) :
     apiRunSafe S Gen.srcProg E (Store.new Gen.srcConsts) ops = true :=
@@ -258,7 +260,7 @@ def exApi : List ApiOp :=
 /-- the hypotheses of `C01_api_safe_src` are met by the toy Unicode/stem oracle with the English tables and
     insertion sort -/
 example : apiRunSafe exSorter Gen.srcProg exEnv (Store.new Gen.srcConsts) exApi = true :=
-  C01_api_safe_src exSorter exSorter_ok exEnv rfl toyU_facts tablesOK_en (fun _ => toyStem_bounded _) exApi
+  C01_api_safe_src exSorter exSorter_ok exEnv rfl toyU_facts tablesOK_en (toyStemHyp _ (by decide)) exApi
 
 /-- the hypotheses of `C01_tokenize_safe` -/
 example : runStepsSafe exEnv Gen.srcQuerySteps [65, 98, 99, 32, 100] = true ∧
